@@ -134,7 +134,7 @@ func cGenStream(rng *rand.Rand, withRetry bool) string {
 		b.WriteString("data: d" + strconv.Itoa(i) + "\n\n")
 	}
 	// ending
-	switch rng.IntN(10) {
+	switch rng.IntN(12) {
 	case 0:
 		b.WriteString("id: cutoff\ndata: partial\n") // terminated but not dispatched by a blank line
 	case 1:
@@ -147,6 +147,14 @@ func cGenStream(rng *rand.Rand, withRetry bool) string {
 		b.WriteString("id: cutoff2")
 	case 5:
 		b.WriteString("foo: bar\n")
+	case 6:
+		if withRetry {
+			b.WriteString("retry: 15\ndata: partial\n") // valid retry in an event that never gets its blank line
+		}
+	case 7:
+		if withRetry {
+			b.WriteString("data: partial\nretry: 1000\nid: cut")
+		}
 	}
 	return b.String()
 }
@@ -184,6 +192,7 @@ func cGenAttempt(rng *rand.Rand, withRetry bool, allowReject bool, allowCancel b
 	}
 	if allowCancel && rng.IntN(40) == 0 {
 		a.CancelInRT = true
+		a.RTErrAfterCancel = rng.IntN(2) == 0
 	}
 	return a
 }
@@ -286,6 +295,23 @@ func TestC11(t *testing.T) {
 			}
 			sc.Attempts = append(sc.Attempts, a)
 		}
+		if rng.IntN(5) == 0 {
+			sc.BufMax = 256
+			for k := range sc.Attempts {
+				a := &sc.Attempts[k]
+				if a.Kind == "stream" && len(a.Stream) < 200 && a.CancelAtOff < 0 && rng.IntN(2) == 0 {
+					a.Oversized, a.End = true, "eof"
+				} else if a.Kind == "stream" && len(a.Stream) >= 200 {
+					sc.BufMax = 0
+					break
+				}
+			}
+			if sc.BufMax == 0 {
+				for k := range sc.Attempts {
+					sc.Attempts[k].Oversized = false
+				}
+			}
+		}
 		if rng.IntN(25) == 0 {
 			sc.CancelBefore = true
 		}
@@ -361,8 +387,10 @@ func TestC12(t *testing.T) {
 			sc.Backoff.MaxRetries = maxRet[rng.IntN(len(maxRet))]
 		}
 		na := 1 + rng.IntN(30)
+		rejects := rng.IntN(4) == 0
+		sc.CustomValidator = rejects
 		for k := 0; k < na; k++ {
-			a := cGenAttempt(rng, true, false, false)
+			a := cGenAttempt(rng, true, rejects, false)
 			if rng.IntN(6) == 0 {
 				a.Latency = int64(rng.IntN(int(20 * ms)))
 			}
